@@ -409,7 +409,8 @@ ASSUMPTIONS = [
     "dialect trait declarations (IsTerminator, SymbolOpInterface, MemoryEffect traits) describe the operations' real behaviour",
     "get_effects is bound as an opaque expression returning the op's effect set or None (its trait loop is covered by the bounded stand-in)",
     "the nested generator `any(is_live(use.operation) for result in op.results for use in result.uses)` is abstracted by 'some user of a result is live'",
-    "PatternRewriter.erase and propagate_region_liveness are trusted callee contracts here (C11 / bounded); LiveSet.delete_dead, region_dce's fixpoint "
+    "PatternRewriter.erase and propagate_region_liveness are trusted callee contracts here (C11 / bounded); LiveSet.delete_dead is under contract with trusted models "
+    "of erase_block / erase_op / the listener and of its own recursive call; region_dce's fixpoint "
     "('no removable operation or unreachable block remains', 'program results unchanged' as exact-remaining-set) are decided by the bounded stand-in only",
     "PostOrderIterator reachability is C24",
 ]
